@@ -194,6 +194,29 @@ def main(run: Run):
     for fn in ("R", "W", "RW", "RW1C", "RW1S", "_Reserved"):
         run.functions[f"amaranth_soc.csr.action.{fn}.elaborate"] = "per-configuration (bounded in shape/init), all values/states/time"
     run_configs(run, __name__, cfgs, must_accept=True)
+    # L1: the statements each action's elaborate() issues - for every shape, width and initial value (recording stubs; RW1C / RW1S for
+    # one arbitrary bit of a storage of any width)
+    from ..pyvc.driver import discharge_all
+    from ..pyvc.engine import Unsupported
+    from ..common import BASE_ASSUMPTIONS_L1
+    try:
+        from contracts import action_l1
+        obs = []
+        for f in action_l1.ALL:
+            fv = f()
+            run.functions[f"amaranth_soc.{fv.qualname} [statements issued, every shape]"] = f"proved ({fv.paths} paths, {len(fv.obs)} obligations)"
+            obs += fv.obs
+        run.require("csr.action.RW1C.elaborate::bit-set-by-its-set-input-AFTER-the-clear(setting-wins)",
+                    "csr.action.RW1S.elaborate::bit-set-by-writing-a-one-AFTER-the-clear(setting-wins)",
+                    "csr.action.RW1C.elaborate::nothing-else-per-bit", "csr.action.RW.elaborate::storage-takes-the-written-value",
+                    "csr.action.R.elaborate::read-data-passed-to-the-bus", "csr.action.W.elaborate::write-strobe-passed-from-the-bus")
+        run.assumptions += BASE_ASSUMPTIONS_L1 + [
+            "field action contracts: Amaranth objects are recording stubs (which statements are issued, in which order, under which If, on which "
+            "bit); Value.cast is the identity on bits; last-assignment-wins and 'an unassigned register bit keeps its value' are Amaranth's "
+            "semantics (assumed; proved per shape from the netlist by the hdlvc clauses)"]
+        discharge_all(run, obs, timeout_ms=10000)
+    except Unsupported as e:
+        run.bounded_notes.append(f"field action elaborate(): outside the pyvc subset on this tree ({e}); the per-shape clauses decide")
     return run.finish(
         explanation="Contract clauses on each field action's elaborate(), discharged as QF_BV obligations over the "
                     "Amaranth NIR netlist of the real elaborated action from an arbitrary storage value "
